@@ -7,6 +7,7 @@ import (
 	"errors"
 	"fmt"
 	"os"
+	"path"
 	"path/filepath"
 	"strconv"
 	"strings"
@@ -237,11 +238,14 @@ func TestC19(t *testing.T) {
 			bl := mocker.Create()
 			defer bl.Reset()
 			var n int64
-			bl.Func(os.Getenv).Apply(func(k string) string { atomic.AddInt64(&n, 1); return "mocked-" + k })
-			bl.Func(os.Getpid).Apply(func() int { atomic.AddInt64(&n, 1); return 4242 })
-			bl.Func(strconv.Itoa).Apply(func(i int) string { atomic.AddInt64(&n, 1); return "itoa" })
-			bl.Func(filepath.Base).Apply(func(p string) string { atomic.AddInt64(&n, 1); return "base" })
-			rec("library mocks -> %s %d %s %s", os.Getenv("VERIF_C19_KEY"), os.Getpid(), strconv.Itoa(7), filepath.Base("/a/b"))
+			cnt := func(name string) { atomic.AddInt64(&n, 1); rep.Stat("library_callback_runs:"+name+":"+mode, 1) }
+			bl.Func(os.Getenv).Apply(func(k string) string { cnt("os.Getenv"); return "mocked-" + k })
+			bl.Func(os.Getpid).Apply(func() int { cnt("os.Getpid"); return 4242 })
+			bl.Func(strconv.Itoa).Apply(func(i int) string { cnt("strconv.Itoa"); return "itoa" })
+			bl.Func(filepath.Base).Apply(func(p string) string { cnt("filepath.Base"); return "base" })
+			bl.Func(path.Base).Apply(func(p string) string { cnt("path.Base"); return "pbase" })
+			bl.Func(strings.ToUpper).Apply(func(p string) string { cnt("strings.ToUpper"); return "UP" })
+			rec("library mocks -> %s %d %s %s %s %s", os.Getenv("VERIF_C19_KEY"), os.Getpid(), strconv.Itoa(7), filepath.Base("/a/b"), path.Base("/c/d"), strings.ToUpper("x"))
 			bl.Func(F1).Apply(func(a int) int { return a + 1 })
 			rec("F1 while library functions are mocked -> %d", F1(k))
 			if atomic.LoadInt64(&n) > 10000 {
